@@ -28,7 +28,7 @@ static int use(int kind, int n, const double* x, double* y) {
     }
 }
 HX int h_use(int kind, int n, const double* x, double* y) { H_TRY return use(kind, n, x, y); H_END }
-// ---- free functions (each call self-contained): fk 0 fft(c) 1 fft(r) 2 ifft 3 irfft 4 xcorr 5 FftFilter(obj+process) 6 welch 7 resample(3/2) 8 randn 9 rand 10 randi 11 rng+randn 12 awgn 13 hann window 14 czt
+// ---- free functions (each call self-contained): fk 0 fft(c) 1 fft(r) 2 ifft 3 irfft 4 xcorr 5 FftFilter(obj+process) 6 welch 7 resample(3/2) 8 randn 9 rand 10 randi 11 rng+randn 12 awgn 13 hann window 14 czt 15 scalar randn()/rand()/randi()
 HX int h_free(int fk, int n, const double* x, double* y) {
     H_TRY
     switch (fk) {
@@ -46,6 +46,7 @@ HX int h_free(int fk, int n, const double* x, double* y) {
     case 11: { rng(12345); arr_real r = randn(n); put_real(r, y); return r.size(); }
     case 12: { arr_real r = awgn(mk_real(x, n), 10.0); put_real(r, y); return r.size(); }
     case 13: { arr_real r = window::hann(n); put_real(r, y); return r.size(); }
+    case 15: { for (int i = 0; i < n; ++i) y[i] = (i % 3 == 0) ? randn() : (i % 3 == 1) ? dsplib::rand() : randi({-3, 9}); return n; }    // scalar overloads
     default: { arr_cmplx r = czt(mk_cmplx(x, n), n + 1, cmplx_t{0.8, -0.6}, cmplx_t{1.0, 0.0}); put_cmplx(r, y); return r.size(); }
     }
     H_END
@@ -103,6 +104,16 @@ HX int h_rng_threads(int seed, int n) {
     rng(seed); std::thread other([]() { rng(777); volatile double s = 0; for (int i = 0; i < 2000; ++i) s += randn(); });
     arr_real b = randn(n); other.join();
     for (int i = 0; i < n; ++i) if (a[i] != b[i]) return 0;
+    // (3) scalar overloads, deterministic hand-over: this thread draws k values, another thread seeds and draws j values (and has finished), this thread draws on:
+    //     the continuation must be what this thread gets alone (no generator or distribution state may be shared between the threads)
+    for (int k = 1; k <= 3; ++k) for (int j = 0; j <= 2; ++j) {
+        double solo[8], mix[8];
+        rng(seed); for (int i = 0; i < 8; ++i) solo[i] = (i & 4) ? dsplib::rand() + randi({0, 100}) : randn();
+        rng(seed); for (int i = 0; i < k; ++i) mix[i] = randn();
+        { std::thread t([j]() { rng(777); volatile double s = 0; for (int i = 0; i < j; ++i) s += randn() + dsplib::rand(); }); t.join(); }
+        for (int i = k; i < 8; ++i) mix[i] = (i & 4) ? dsplib::rand() + randi({0, 100}) : randn();
+        for (int i = 0; i < 8; ++i) if (solo[i] != mix[i]) return 0;
+    }
     return 1;
     H_END
 }
